@@ -81,7 +81,7 @@ func TestC23(t *testing.T) {
 
 	g := newRig()
 
-	ncases := r.N(400, 6000)
+	ncases := r.N(300, 5000)
 	r.WithWatchdog(time.Duration(r.N(15, 90))*time.Minute, "C23 workload", func() { run(r, g, ncases) })
 
 	if r.Counter("ops_visited") == 0 || r.Counter("lookup_expected_found") == 0 {
@@ -91,9 +91,15 @@ func TestC23(t *testing.T) {
 
 func run(r *vlib.Run, g *rig, ncases int) {
 	ctx := context.Background()
+	// a fresh pool per case: deleted keys stay in leveldb's memtable as
+	// tombstones and every later iteration would have to step over them
+	var pool *isaacdatabase.TempPool
 	for ci := 0; ci < ncases; ci++ {
 		rng := r.Rand(23, ci)
-		pool := g.pool()
+		if pool != nil {
+			_ = pool.DeepClose()
+		}
+		pool = g.pool()
 
 		base0 := int64(2 + rng.Intn(1000))
 		win := int64(20)
@@ -302,7 +308,6 @@ func run(r *vlib.Run, g *rig, ncases int) {
 		before, ok := queryAll("stored")
 		if !ok {
 			r.Case(fp)
-			_ = pool.DeepClose()
 			continue
 		}
 
@@ -397,12 +402,13 @@ func run(r *vlib.Run, g *rig, ncases int) {
 		if ci < 4 {
 			r.Sample(map[string]any{"case": ci, "window": []int64{base0, base0 + win}, "ops": fpParts, "nodes": nnodes})
 		}
-		_ = pool.DeepClose()
 	}
+	_ = pool.DeepClose()
+	pool = g.pool()
+	defer func() { _ = pool.DeepClose() }()
 
 	// directed: the shape described in DESIGN.md (an operation ending later but starting above the height)
 	{
-		pool := g.pool()
 		n0, n1 := base.RandomAddress("n0-"), base.RandomAddress("n1-")
 		mk := func(n base.Address, s, e int64) base.SuffrageExpelOperation {
 			op := isaac.NewSuffrageExpelOperation(isaac.NewSuffrageExpelFact(n, base.Height(s), base.Height(e), "directed"))
@@ -436,7 +442,6 @@ func run(r *vlib.Run, g *rig, ncases int) {
 				r.Violation("Lookup:notfound-but-covering-exists:behind-later-ending-operation-of-node-starting-above-height", "directed: lookup(7,n0) over {n0[10,20], n0[6,9]} found nothing", info)
 			}
 		})
-		_ = pool.DeepClose()
 	}
 }
 
